@@ -14,7 +14,47 @@ def check(rep, tier, seed):
         "bytes); after T::deserialize the public DeserializationContext is drained byte by byte: the number of "
         "bytes left must be exactly the suffix length and the value the original")
     R.run_and_judge(rep, "C07", "C07", cases, tier, seed)
+    unknown_form(rep, tier, seed, cases)
     cross_version(rep, tier, seed)
+
+
+def unknown_form(rep, tier, seed, cases):
+    """encodings other writers produce (Scala's lists, serialize_iterator without an exact size hint): every
+    sequence and map in the unknown-length form, at every nesting level, followed by a suffix - the decoder must
+    stop exactly behind the terminator of the outermost value"""
+    from .. import sx
+    rng = C.rng_for(seed, "C07u")
+    harness = C.build_harness("release")
+    model = C.build_model()
+    wd = C.workdir("C07u")
+    uc = [dict(c) for c in cases if c["_t"][0] in ("seq", "map", "tup", "opt", "named", "res", "wrap")][: (3000 if tier == "quick" else 10 ** 9)]
+    for c in uc:
+        c["cmd"] = "encu"
+    uenc = C._run_codec_side(model, uc, [C.codec_line(c) for c in uc], wd, "uenc", 16, 3000)
+    dcases, want = [], []
+    for c, a in zip(uc, uenc):
+        if not a.startswith("ok "):
+            continue
+        hx = a.split(" ")[1]
+        sfx = rng.choice(["", "00", "01", "0100", "ff01", "8080808001", "0102030405060708090a0b0c0d0e0f"])
+        dcases.append({"env": c["env"], "cmd": "dec", "ty": c["ty"], "hex": ((hx if hx != "-" else "") + sfx) or "-",
+                       "_env": c["_env"], "_t": c["_t"]})
+        want.append(f"ok {sx.expect_decoded(c['_t'], c['val'], c['_env'])} {len(sfx) // 2}")
+    dimpl, dmod = C.run_codec(harness, model, dcases, wd, "udec")
+    dis = [(C.codec_line(c), a, b) for c, a, b in zip(dcases, dimpl, dmod) if a != b]
+    bad = [(c, a, w) for c, a, w in zip(dcases, dimpl, want) if a != w]
+    rep.coverage["unknown_form_with_suffix"] = {"encodings": len(dcases), "failing": len(bad), "disagreements": len(dis)}
+    rep.coverage["evaluations"] = rep.coverage.get("evaluations", 0) + len(dcases)
+    if bad:
+        c, a, w = bad[0]
+        rep.violation(f"an encoding in the unknown-length form followed by a suffix is not consumed exactly: {C.codec_line(c)[:140]} -> {a[:100]}",
+                      {"kind": "case", "env": c["env"], "case": C.codec_line(c), "implementation": a, "expected": w,
+                       "n_failing": len(bad)})
+    elif dis:
+        l, a, b = dis[0]
+        rep.violation(f"implementation and model disagree on an unknown-length-form encoding: {l[:160]}",
+                      {"kind": "correspondence", "stream": "codec/unknown-form+suffix", "case": l, "implementation": a, "model": b,
+                       "n_disagreements": len(dis)}, no_input=True)
 
 
 def cross_version(rep, tier, seed):
